@@ -1338,7 +1338,7 @@ fn schedule(tier: &str, pass: u64) -> Vec<(&'static str, u64)> {
     let per: [(&'static str, u64); 5] = if tier == "thorough" {
         [("frame-slots", 24), ("swap-rust", 8), ("swap-script", 8), ("refcount-storm", 12), ("into-func", 8)]
     } else {
-        [("frame-slots", 6), ("swap-rust", 3), ("swap-script", 4), ("refcount-storm", 6), ("into-func", 4)]
+        [("frame-slots", 8), ("swap-rust", 3), ("swap-script", 4), ("refcount-storm", 6), ("into-func", 4)]
     };
     let mut v = vec![];
     for (class, n) in per {
